@@ -24,8 +24,9 @@ Init == /\ rows \in UNION {[1..k -> 1..Len(Elems)] : k \in 0..N}
 Next == /\ ~out.done /\ Len(hist) < MaxOps
         /\ \/ \E ps \in 1..MaxPS : \E perm \in (IF AllPerms THEN Perms(SelectRows(BoundsRows(ElemsOf(rows)), 0, TRUE))
                                                        ELSE {SelectRows(BoundsRows(ElemsOf(rows)), 0, TRUE)}) : Build(ps, perm)
-           \/ (\A i \in 1..Len(hist) : hist[i].op \notin {"slice", "copy"}) /\
+           \/ (\A i \in 1..Len(hist) : hist[i].op \notin {"slice", "copy", "step"}) /\
               (\/ \E a \in 0..Len(rows), b \in 0..Len(rows) : a <= b /\ (a > 0 \/ b < Len(rows)) /\ Slice(a, b)
-               \/ Copy)
+               \/ Copy
+               \/ \E st \in {-1, 2} : Stepped(st))
            \/ \E key \in Keys : Cx(key)
 =============================================================================
